@@ -173,7 +173,7 @@ def defects():
         for lf in spec['lfs'][:1]:
             idx = [i for i, o in enumerate(lf['objects']) if o['kind'] == 'origin']
             if any(isinstance(v, Ref) for o in lf['objects'] for a in o['attrs'].values()
-                   for v in (content.flat(a['v']) if isinstance(a['v'], list) else [a['v']])):
+                   for v in (content.flat(a['v']) if isinstance(a['v'], (list, tuple)) else [a['v']])):
                 return False
             lf['objects'] = [o for o in lf['objects'] if o['kind'] != 'origin']
         return True
@@ -187,7 +187,16 @@ def defects():
     @d('list-for-single-valued-attribute', False)
     def _(spec, R):
         li, oi, o = first(spec, 'origin')
-        o['attrs']['file_type'] = {'v': ['A', 'B'], 'units': None, 'route': 'plain', '_expect_list': True}
+        v = R.choice([['A', 'B'], ('A', 'B'), ('A', 'B', 'C'), (), ['A'], ('A',)])
+        which = R.choice(['file_type', 'file_set_name', 'name_space_name'])
+        o['attrs'][which] = {'v': v, 'units': None, 'route': R.choice(['plain', 'dict', 'later']), '_expect_list': True}
+        return True
+
+    @d('sequence-for-frame-direction', False)
+    def _(spec, R):
+        li, oi, o = first(spec, 'frame')
+        o['attrs']['direction'] = {'v': R.choice([('INCREASING', 'DECREASING'), ['INCREASING', 'DECREASING'], (), ('INCREASING',)]),
+                                   'units': None, 'route': 'plain', '_expect_list': True}
         return True
 
     @d('dimension-inconsistent-with-data', True)
